@@ -229,9 +229,18 @@ class _Sub:
         self.workers, self.tlc_runs, self.cov = ctx.workers, ctx.tlc_runs, ctx.cov
 
 
-def validate(ctx, mode, traces, what):
+_vcount = [0]
+
+
+def validate(ctx, mode, traces, what, slot=0):
     """TLC judges (thread-safe part): returns the raw (trace index, line, [clause, tags]) triples."""
-    viols, _ = tc.validate(_Sub(ctx, "val_" + mode), "Trace_HCache", trace_cfg(ctx, mode), traces, what, min_batch=3000)
+    _vcount[0] += 1
+    sub = _Sub(ctx, "val_%d" % _vcount[0])
+    try:
+        viols, _ = tc.validate(sub, "Trace_HCache", trace_cfg(ctx, mode), traces, what, min_batch=3000)
+    finally:
+        import shutil
+        shutil.rmtree(sub.scratch, ignore_errors=True)
     return viols
 
 
@@ -261,6 +270,17 @@ def judge(ctx, mode, traces, hists, what, stats=None):
     return attribute(ctx, mode, traces, hists, validate(ctx, mode, traces, what), what, stats)
 
 
+def tally(stats, mode, hists, last_only):
+    """Stratum statistics of the judged lines, from the tags the generator attached to every call."""
+    for h in hists:
+        for c in h[(len(h) - 1) if last_only else 0:]:
+            stats[("lines", mode, "clean" if not c.get("tags") else "tagged")] += 1
+            stats[("hazardfree", mode, "yes" if not set(c.get("tags", [])) & set(HAZARDS) else "no")] += 1
+            for t in c.get("tags", []):
+                stats[("tag", mode, t)] += 1
+        stats[("histories", mode, "clean" if not any(c.get("tags") for c in h) else "tagged")] += 1
+
+
 def execute_all(ctx, pool, mode, hists, last_only, stats=None):
     """Execute the histories of one family in the worker processes; returns the traces (same order)."""
     items = [(h, (len(h) - 1) if last_only else 0) for h in hists]
@@ -269,13 +289,7 @@ def execute_all(ctx, pool, mode, hists, last_only, stats=None):
     traces = [t for trs in pool.map(_exec_chunk, jobs) for t in trs]
     ctx.count(evaluations=sum(1 for t in traces for e in t if e["j"]))
     if stats is not None:
-        for h, (_, jf) in zip(hists, items):
-            for c in h[jf:]:
-                stats[("lines", mode, "clean" if not c.get("tags") else "tagged")] += 1
-                stats[("hazardfree", mode, "yes" if not set(c.get("tags", [])) & set(HAZARDS) else "no")] += 1
-                for t in c.get("tags", []):
-                    stats[("tag", mode, t)] += 1
-            stats[("histories", mode, "clean" if not any(c.get("tags") for c in h) else "tagged")] += 1
+        tally(stats, mode, hists, last_only)
     return traces
 
 
@@ -323,8 +337,11 @@ def families(tier, seed):
         ("graphm_cs", "cs", "graph", 2 if q else 3, dict(metas=(0, 1), ops=ALL_OPS)),
         # case-insensitive provider with a case variant of one name
         ("graph_ci", "ci", "graph", 2 if q else 3, dict(metas=(0,), ops=STRUCT_OPS)),
-        ("sim_cs", "cs", "sim", 8 if q else 12, dict(metas=(0, 1, 2), simulate="num=%d" % (60 if q else 1500), seed=2 * seed + 1)),
-        ("sim_ci", "ci", "sim", 8 if q else 12, dict(metas=(0, 1, 2), simulate="num=%d" % (40 if q else 1000), seed=2 * seed + 2)),
+        # long random sequences: any call / only calls without a hazard tag (every line of those must pass)
+        ("sim_cs", "cs", "sim", 8 if q else 12, dict(metas=(0, 1, 2), simulate="num=%d" % (40 if q else 1000), seed=4 * seed + 1)),
+        ("sim_ci", "ci", "sim", 8 if q else 12, dict(metas=(0, 1, 2), simulate="num=%d" % (40 if q else 1000), seed=4 * seed + 2)),
+        ("simclean_cs", "cs", "simclean", 10 if q else 16, dict(metas=(0, 1, 2), simulate="num=%d" % (40 if q else 1000), seed=4 * seed + 3)),
+        ("simclean_ci", "ci", "simclean", 10 if q else 16, dict(metas=(0, 1, 2), simulate="num=%d" % (40 if q else 1000), seed=4 * seed + 4)),
     ]
     if not q:
         fams += [
@@ -375,36 +392,57 @@ def run(ctx):
             futs[(name, mode, kind)] = [pool.submit(generate, ctx, name, mode, L, kind, name, **kw)]
 
     sizes, nontrivial, phases, t0 = {}, 0, {}, time.time()
-    per_mode = {"cs": ([], []), "ci": ([], [])}          # mode -> (traces, histories)
-    exemplars = {}                                       # (mode, trace index) -> finding id
+    UNIT = 30000                                         # traces per validation unit (bounds memory; ~10 JVMs each)
+    buf = {"cs": [], "ci": []}                           # mode -> [(history, judge_from, exemplar finding id or None)]
+    inflight = []                                        # [(future, mode, traces, histories, exemplar ids, label)]
+
+    def collect(block):
+        while inflight and (block or inflight[0][0].done() or len(inflight) >= 2):
+            fut, mode, traces, hists, exids, label = inflight.pop(0)
+            viols = attribute(ctx, mode, traces, hists, fut.result(), label, stats)
+            failing = {ti for ti, _, _ in viols}
+            for ti, fid in exids.items():
+                if ti not in failing:
+                    ctx.extra.setdefault("exemplars_no_longer_failing", []).append(fid)
+
+    def flush(mode, label):
+        items, buf[mode] = buf[mode], []
+        if not items:
+            return
+        collect(False)
+        step = max(20, len(items) // (4 * ctx.workers) + 1)
+        jobs = [(mode, [(h, jf) for h, jf, _ in items[k:k + step]]) for k in range(0, len(items), step)]
+        traces = [t for trs in xpool.map(_exec_chunk, jobs) for t in trs]
+        ctx.count(evaluations=sum(1 for t in traces for e in t if e["j"]))
+        hists = [h for h, _, _ in items]
+        exids = {n: fid for n, (_, _, fid) in enumerate(items) if fid}
+        inflight.append((pool.submit(validate, ctx, mode, traces, "%s (%s)" % (label, mode), len(inflight)),
+                         mode, traces, hists, exids, label))
+
     try:
         for f in ctx.findings:                           # known-finding exemplars are re-executed on every run
             ex = f.get("exemplar")
             if ex:
-                trs, hs = per_mode[ex["mode"]]
-                exemplars[(ex["mode"], len(trs))] = f["id"]
-                trs.append(execute(ex["history"], ex["mode"]))
-                hs.append(ex["history"])
+                buf[ex["mode"]].append((ex["history"], 0, f["id"]))
         for (name, mode, kind), fs in futs.items():
             hs = uniq([h for f in fs for h in f.result()])
             sizes[name] = len(hs)
-            if kind != "sim" and len(hs) < 1000:
+            if not kind.startswith("sim") and len(hs) < 1000:
                 raise MachineryError("family %s has only %d histories" % (name, len(hs)))
-            per_mode[mode][0].extend(execute_all(ctx, xpool, mode, hs, kind == "graph", stats))
-            per_mode[mode][1].extend(hs)
+            tally(stats, mode, hs, kind == "graph")
             ctx.sample({"family": name, "mode": mode, "history": hs[len(hs) // 2]})
-            if kind != "sim":
+            if not kind.startswith("sim"):
                 nontrivial += sum(1 for h in hs if h[-1]["op"] not in ("set_meta_path", "set_meta_oid"))
-            phases[name + "_generated_executed_at"] = round(time.time() - t0, 1)
+            for h in hs:
+                buf[mode].append((h, (len(h) - 1) if kind == "graph" else 0, None))
+                if len(buf[mode]) >= UNIT:
+                    flush(mode, name)
+            phases[name + "_generated_at"] = round(time.time() - t0, 1)
+        for mode in buf:
+            flush(mode, "remaining families")
+        collect(True)
     finally:
         xpool.terminate()
-    vf = {mode: pool.submit(validate, ctx, mode, per_mode[mode][0], "all families, " + mode) for mode in per_mode}
-    for mode, f in vf.items():
-        viols = attribute(ctx, mode, per_mode[mode][0], per_mode[mode][1], f.result(), "all families, " + mode, stats)
-        failing = {ti for ti, _, _ in viols}
-        for (m, ti), fid in exemplars.items():
-            if m == mode and ti not in failing:
-                ctx.extra.setdefault("exemplars_no_longer_failing", []).append(fid)
     phases["validated_at"] = round(time.time() - t0, 1)
     for m in mcs:
         m.result()
